@@ -412,7 +412,9 @@ fn fi_images(c: &FiCase, info: &mut CaseInfo) -> Result<(), Fail> {
     }
     let lg_cur = (lg_cur + c.lg_cur_delta).min(c.lg_max);
     let empty = counters.is_empty() && c.offset == 0 && c.extra_weight == 0;
-    let stream_weight: u64 = counters.iter().map(|x| x.1).sum::<u64>() + counters.len() as u64 * c.offset as u64 / 2 + c.extra_weight as u64 + if counters.is_empty() { c.offset as u64 } else { 0 };
+    // every purge removed `delta` from each counter it kept and dropped counters below it, so the
+    // stream weight is at least the counters plus the offset
+    let stream_weight: u64 = counters.iter().map(|x| x.1).sum::<u64>() + (counters.len() as u64 + 1) * c.offset as u64 + c.extra_weight as u64;
     let im = fspec::FiImage {
         lg_max: c.lg_max,
         lg_cur,
